@@ -537,7 +537,14 @@ pub fn gen_value(rng: &mut Rng, nan: bool) -> IValue {
 		9 => IValue::Bool(rng.chance(1, 2)),
 		10 => IValue::UInt(rng.below(20)),
 		11 => IValue::SInt(rng.below(20) as i64 - 10),
-		12 if nan => IValue::Float(f32::NAN.to_le_bytes()),
+		// bit patterns that `==` on floats cannot tell apart or never equates: ±0, NaN payloads, infinities, subnormals
+		11 | 12 | 13 if nan => {
+			if rng.chance(1, 2) {
+				IValue::Float((*rng.pick(&[0x0000_0000u32, 0x8000_0000, 0x7fc0_0000, 0xffc0_0001, 0x7f80_0001, 0x7f80_0000, 0xff80_0000, 0x0000_0001, 0x8000_0001])).to_le_bytes())
+			} else {
+				IValue::Double((*rng.pick(&[0u64, 1 << 63, 0x7ff8_0000_0000_0000, 0xfff8_0000_0000_0001, 0x7ff0_0000_0000_0001, 0x7ff0_0000_0000_0000, 0xfff0_0000_0000_0000, 1, (1 << 63) | 1])).to_le_bytes())
+			}
+		}
 		_ => IValue::Str(format!("v{}", rng.below(6)).into_bytes()),
 	}
 }
@@ -624,7 +631,16 @@ pub fn gen_layer(rng: &mut Rng, o: &GenOpts, name: Vec<u8>) -> ILayer {
 			}
 		}
 	}
-	// avoid +0/-0 twins of one float type (Rust `==` vs `Hash` mismatch, outside the model)
+	if o.nan && rng.chance(1, 2) {
+		// both zeros of one float type in the same table (equal under `==`, different bits)
+		if rng.chance(1, 2) {
+			values.push(IValue::Float(0.0f32.to_le_bytes()));
+			values.push(IValue::Float((-0.0f32).to_le_bytes()));
+		} else {
+			values.push(IValue::Double((-0.0f64).to_le_bytes()));
+			values.push(IValue::Double(0.0f64.to_le_bytes()));
+		}
+	}
 	let mut features = vec![];
 	let nf = if rng.chance(1, 8) { 0 } else { rng.range(1, o.max_features) };
 	for _ in 0..nf {
